@@ -41,22 +41,20 @@ def load_all_contracts():
 
 
 def _verify_worker(job):
-    key, cfg = job
+    key, vlabel, cfg = job
     from pyvc import verify
     c = contract_mod.REGISTRY[key]
     try:
-        variants = c.variants or [(None, None)]
-        results = []
-        for vlabel, overrides in variants:
-            cfg2 = dict(cfg)
-            if overrides:
-                cfg2["variant"] = overrides
-            r = verify.verify_contract(c, contract_mod.REGISTRY, cfg2)
-            r["variant"] = vlabel
-            results.append(r)
-        return key, results, None
+        overrides = dict(c.variants).get(vlabel) if c.variants else None
+        cfg2 = dict(cfg)
+        cfg2["variant_label"] = vlabel
+        if overrides:
+            cfg2["variant"] = overrides
+        r = verify.verify_contract(c, contract_mod.REGISTRY, cfg2)
+        r["variant"] = vlabel
+        return key, vlabel, r, None
     except Exception:
-        return key, None, traceback.format_exc()
+        return key, vlabel, None, traceback.format_exc()
 
 
 def _lemma_worker(job):
@@ -119,14 +117,23 @@ def check_property(pid, tier, seed, jobs=None):
     cfg = {"timeout_ms": 8000 if tier == "quick" else 60000, "tier": tier, "seed": seed}
     contracts = [c for c in contract_mod.BY_PROPERTY.get(pid, []) if not c.model_only]
     lemmas = contract_mod.LEMMAS.get(pid, [])
-    nproc = jobs or min(16, max(1, len(contracts) + len(lemmas)))
+    vjobs = [(c.key, vl, cfg) for c in contracts for vl, _ in (c.variants or [(None, None)])]
+    nproc = jobs or min(16, max(1, len(vjobs) + len(lemmas)))
     fn_results, lemma_results = [], []
-    if contracts or lemmas:
+    if vjobs or lemmas:
         with mp.get_context("fork").Pool(nproc) as pool:
-            a1 = pool.map_async(_verify_worker, [(c.key, cfg) for c in contracts], chunksize=1)
+            a1 = pool.map_async(_verify_worker, vjobs, chunksize=1)
             a2 = pool.map_async(_lemma_worker, [(pid, i, cfg) for i in range(len(lemmas))], chunksize=1)
-            fn_results = a1.get()
+            raw = a1.get()
             lemma_results = a2.get()
+        grouped = {}
+        for key, vl, r, err in raw:
+            g = grouped.setdefault(key, [[], None])
+            if err is not None:
+                g[1] = err
+            else:
+                g[0].append(r)
+        fn_results = [(key, g[0], g[1]) for key, g in grouped.items()]
     # ---------------- P: functions under contract ----------------
     from pyvc import replay as replay_mod, native
     for key, results, err in fn_results:
